@@ -3,7 +3,7 @@ import ast
 
 from .. import dispatch
 from ..cfg import CFG, definitely_assigned
-from ..report import AnalysisError, norm
+from ..report import borrow, AnalysisError, norm
 from ..srcmodel import own_nodes, own_statements
 from ..terms import Resolver, alternatives, show, walk
 
@@ -36,6 +36,13 @@ def run(rep, ctx):
     rep.run_rule("C10.R6", "the pair generator passes operands through unchanged", r6_passthrough, ctx)
     rep.run_rule("C10.R8", "no method of Array/FixedArray uses the values container in a truth context (ndarray truth values are ambiguous)", r8_no_truth_test_on_values, ctx)
     rep.run_rule("C10.R7", "Array.GetAbstractValue converts every element to the requested unit", r7_getvalues, ctx)
+    from . import c01, c02
+    rep.rule("C10.R9", "the element-wise branch of UnitDatabase.Convert converts every element by the same route as a single number, for every container kind (shared with C01.R4 / C02.R1)")
+    try:
+        borrow(rep, c01.r4_routes, ctx, "C01.R4", "C10.R9", keep=lambda o: "UnitDatabase.Convert" in o.key)
+        borrow(rep, c02.r1_agreement, ctx, "C02.R1", "C10.R9", keep=lambda o: o.key.startswith("Convert:"))
+    except AnalysisError as e:
+        rep.error("C10.R9", str(e))
     rep.not_decided += [
         "that numpy's vectorised evaluation equals per-element evaluation (trusted library semantics)",
         "broadcasting of numpy operands of different shapes",
